@@ -3,6 +3,7 @@ package runh
 import (
 	"fmt"
 	"sort"
+	"strings"
 	"sync"
 	"sync/atomic"
 
@@ -290,4 +291,32 @@ func ReplayArtefact(c *Config, v ev.Violation) bool {
 		}
 	}
 	return again
+}
+
+// ReplayArtefactByName is ReplayArtefact for harnesses whose event indices depend on the tier:
+// the recorded event names are looked up in the given configuration (base name before " !crash").
+func ReplayArtefactByName(c *Config, v ev.Violation) bool {
+	tr, _ := v.Trace.(map[string]interface{})
+	names, _ := tr["events"].([]interface{})
+	raw, _ := tr["steps"].([]interface{})
+	idx := map[string]int{}
+	for e := 0; e < c.NumEvents; e++ {
+		idx[c.EventName(Step{e, 0})] = e
+	}
+	steps := make([]interface{}, len(raw))
+	for i, x := range raw {
+		pr := x.([]interface{})
+		name, _ := names[i].(string)
+		if k := strings.Index(name, " !crash"); k >= 0 {
+			name = name[:k]
+		}
+		e, ok := idx[name]
+		if !ok {
+			ev.Fatal("event %q of the artefact is not in the alphabet of %s", name, c.Name)
+		}
+		steps[i] = []interface{}{float64(e), pr[1]}
+	}
+	tr["steps"] = steps
+	v.Trace = tr
+	return ReplayArtefact(c, v)
 }
